@@ -229,6 +229,20 @@ def r053(report, g, lm, only_div, only_re, headers, tier='quick'):
                           'RPAREN'), 'div', '%s (a) f()' % k.lower()))
         contexts.append(((k, 'LPAREN', 'ID', 'RPAREN', 'LPAREN', 'ID',
                           'RPAREN'), 'div', '%s (a) (b)' % k.lower()))
+        # the same header inside an open parenthesis (a function
+        # expression that is parenthesised or a call argument)
+        fn = ('FUNCTION', 'LPAREN', 'RPAREN', 'LBRACE')
+        contexts.append((('LPAREN',) + fn + (k, 'LPAREN', 'ID', 'RPAREN'),
+                         're', '(function(){ %s (a)' % k.lower()))
+        contexts.append((('ID', 'LPAREN') + fn + (
+            k, 'LPAREN', 'ID', 'LPAREN', 'RPAREN', 'RPAREN'), 're',
+            'f(function(){ %s (g())' % k.lower()))
+        contexts.append((('LPAREN', 'LPAREN') + fn + (
+            k, 'LPAREN', 'ID', 'RPAREN'), 're',
+            '((function(){ %s (a)' % k.lower()))
+        contexts.append((('LPAREN',) + fn + (
+            k, 'LPAREN', 'ID', 'RPAREN', 'ID', 'LPAREN', 'RPAREN'), 'div',
+            '(function(){ %s (a) f()' % k.lower()))
     runs = list(MARKER_RUNS)
     if tier == 'thorough':
         import itertools as _it
@@ -266,7 +280,8 @@ def r053(report, g, lm, only_div, only_re, headers, tier='quick'):
             elif not run:
                 cls = 'context %s' % label
             else:
-                kind = 'header' if ctx and ctx[0] in headers else 'plain'
+                kind = 'header' if exp == 're' and any(
+                    t in headers for t in ctx) else 'plain'
                 cls = 'markers after %s context' % kind
             failing.setdefault(cls, []).append((construct, got, exp))
     for cls, items in sorted(failing.items()):
